@@ -13,7 +13,14 @@ fn col_of(v: &Value) -> Option<u32> {
 fn with_col(i: usize, c: u32) -> Setsum {
     let mut d = [0u8; 32];
     d[4 * i..4 * i + 4].copy_from_slice(&c.to_le_bytes());
-    Setsum::from_digest(d)
+    let s = Setsum::from_digest(d);
+    // the hexadecimal spelling of the same 32 bytes is the same setsum (non-canonical columns included)
+    let hex: String = d.iter().map(|b| format!("{b:02x}")).collect();
+    match Setsum::from_hexdigest(&hex) {
+        Some(h) if h.digest() == s.digest() => {}
+        _ => panic!("from_hexdigest disagrees with from_digest"),
+    }
+    s
 }
 
 /// Some(column value) or None on panic; Err if another column became non-zero
